@@ -5,6 +5,7 @@ import ObiVerif.Model.WriteKind
 import ObiVerif.Model.WritePgzip
 import ObiVerif.Model.WriteReg
 import ObiVerif.Model.WriteOpen
+import ObiVerif.Model.WriteGlue
 import ObiVerif.Driver.Util
 /-! line protocol for C18
 
@@ -21,6 +22,15 @@ import ObiVerif.Driver.Util
 * `wf gz=<0|1> own=<0|1> cf=<0|1> ek=<kind> ks=<k,k,…> zlen=<n> <chunk>…` `obiutils.Wfile` driven directly, one run per
   fault offset `k`; result: numbers of fatal / ok runs, sum of the bytes held by the sink, first offset that is ok, and
   (uncompressed) the sum of the indexes of the first call returning the error
+* `glue ws fo=<auto|fasta|fastq|json> gz= k= cf= zlen= own= ek= <order>:<nseq>:<q>:<fasta>:<fastq>:<json> …` the real
+  `WriteSequence` (fo=auto) / `WriteFasta` / `WriteFastq` / `WriteJSON` over a failing sink, results with no batch
+  included: `Model/WriteGlue.lean` `cliOne`; result `ok got=<n> cl=<Close calls>` | `fatal got=<n>`
+* `glue cli fo= gz= k= zlen= zlen2= to=<file|stdout> paired= chunks… [/ chunks of the mates…]` the real
+  `CLIWriteBioSequences`, every regular file limited to `k` bytes: `cliOne` per stream of `Cli.streams`, exit by the
+  process model
+* `cmd <command> empty-<scenario> <n> <N> <format>`: a command whose result is empty; `N` = size of the output of the
+  same command on a regular file (used as the length of the gzip stream of the empty input); the glue model says
+  whether anything has to be written
 * `cmd <command> <scenario> …` a real command in a subprocess; `nofault…` scenarios must exit 0, all the others
   non-zero (process model with one failing writer); scenarios containing `dyn-`: the failing output is written by a
   goroutine that registers its pipe itself under a cover taken by `main` (`Model/WriteReg.lean`): the dynamic model is
@@ -184,15 +194,92 @@ def runMulti (w : String) (gz own : Nat) (files : List (List String)) : String :
     | some _ => "exit1"
     | none => "no-exit"
 
+open ObiVerif.WriteGlue in
+def parseGB (s : String) : Option GB :=
+  match s.splitOn ":" with
+  | [o, n, q, fa, fq, js] => do
+    let o ← o.toNat?
+    let n ← n.toNat?
+    let q ← q.toNat?
+    let fa ← unhex fa
+    let fq ← unhex fq
+    let js ← unhex js
+    -- what the glue sees: an empty slice, or `HasQualities` of the first record
+    pure ⟨o, if n = 0 then none else some (q == 1), fa, fq, js⟩
+  | _ => none
+
+open ObiVerif.WriteGlue in
+def parseFo : String → Option (Option Fmt)
+  | "fo=auto" => some none
+  | "fo=fasta" => some (some .fasta)
+  | "fo=fastq" => some (some .fastq)
+  | "fo=json" => some (some .json)
+  | _ => none
+
+open ObiVerif.WriteGlue in
+def showRes (r : Res) : String :=
+  match r.out with
+  | .ok => s!"ok got={r.got.length} cl={r.closes}"
+  | .fatal => s!"fatal got={r.got.length}"
+
+open ObiVerif.WriteGlue in
+def glueEnv (zlen : Nat) : Env := ⟨lenCodec zlen, fun i => i % 2 = 1, 4096⟩
+
+/-- the format options of a `cmd` line: `fasta` = none given (guessed), `xfasta` = `--fasta-output` -/
+def cmdFormat (fm : String) : Option WriteGlue.Fmt × Bool :=
+  let ps := fm.splitOn "-"
+  (if ps.contains "fastq" then some .fastq else if ps.contains "xfasta" then some .fasta
+   else if ps.contains "json" then some .json else none, ps.contains "gz")
+
+open ObiVerif.WriteGlue in
+def runGlue : List String → String
+  | "ws" :: fo :: gz :: k :: cf :: zl :: own :: _ek :: rest =>
+    match parseFo fo, kv "gz" gz, kv "k" k, kv "cf" cf, kv "zlen" zl, kv "own" own, rest.mapM parseGB with
+    | some fo, some gz, some k, some cf, some zlen, some own, some arr =>
+      showRes (cliOne (glueEnv zlen) ⟨fo, true, gz = 1, false, false⟩ (own = 1) ⟨true, k, cf = 1⟩ arr)
+    | _, _, _, _, _, _, _ => "bad-op"
+  | "cli" :: fo :: gz :: k :: zl :: zl2 :: to :: pd :: rest =>
+    let parts := splitSlash rest
+    match parseFo fo, kv "gz" gz, kv "k" k, kv "zlen" zl, kv "zlen2" zl2, kv "paired" pd,
+        (parts.headD []).mapM parseGB, ((parts.drop 1).headD []).mapM parseGB with
+    | some fo, some gz, some k, some zlen, some zlen2, some pd, some fwd, some rev =>
+      if to != "to=file" && to != "to=stdout" then "bad-op" else
+      let c : Cli := ⟨fo, to == "to=file", gz = 1, pd = 1, false⟩
+      -- one codec per file: the length of its compressed stream measured on the run without fault
+      let rs := c.streams.map fun s =>
+        cliOne (glueEnv (if s.1 then zlen2 else zlen)) c s.2 ⟨true, k, false⟩ (if s.1 then rev else fwd)
+      let g1 := (rs.headD ⟨.ok, [], 0⟩).got.length
+      match exitOf (rs.map fun r => r.out == .fatal) (canon rs.length) with
+      | some 0 =>
+        match rs with
+        | [_, r2] => s!"ok got={g1} got2={r2.got.length}"
+        | _ => s!"ok got={g1}"
+      | some _ => s!"fatal got={g1}"
+      | none => "no-exit"
+    | _, _, _, _, _, _, _, _ => "bad-op"
+  | _ => "bad-op"
+
 def run (line : String) : String :=
   match words line with
-  | "cmd" :: _ :: sc :: _ =>
+  | "glue" :: rest => runGlue rest
+  | "cmd" :: _ :: sc :: _ :: nn :: fm :: _ =>
+    -- the verdict of the failing output: `Model/WriteOpen.lean` (it cannot be opened: missing / read-only directory, a
+    -- directory or a file in the way; or it is opened, in append mode or not, and the device takes no byte)
+    let empty := sc.startsWith "empty-"
+    let sc := if empty then (sc.drop 6).toString else sc
     -- the verdict of the failing output: `Model/WriteOpen.lean` (it cannot be opened: missing / read-only directory, a
     -- directory or a file in the way; or it is opened, in append mode or not, and the device takes no byte)
     let openFails := ["nodir", "notdir", "sysdir", "rodir", "isdir", "distribute-nodir", "distribute-isdir", "dyn-nodir"].contains sc
     let nofault := sc.startsWith "nofault"
     let slot : Slot := ⟨!openFails, none, if nofault then 1000000000 else 0, false⟩
-    let bad := (withOpen (sc.endsWith "append") slot fun room _ => if room = 0 then (.fatal, []) else (.ok, [])).1 == .fatal
+    -- a command whose result is empty: `CLIWriteBioSequences` over a result with no batch (`Model/WriteGlue.lean`)
+    let (fo, gz) := cmdFormat fm
+    let emptyRun : Nat → Bool → Outcome × Bytes := fun room cf =>
+      let r := WriteGlue.cliOne (glueEnv (nn.toNat?.getD 0)) ⟨fo, sc != "stdoutfull", gz, false, false⟩
+        (!(sc == "stdoutfull" && fo == some .json)) ⟨true, room, cf⟩ []
+      (r.out, r.got)
+    let bad := (withOpen (sc.endsWith "append") slot
+      (if empty then emptyRun else fun room _ => if room = 0 then (.fatal, []) else (.ok, []))).1 == .fatal
     if (sc.splitOn "dyn-").length > 1 then
       -- first output static and complete, second output covered, registered by its launcher goroutine
       let ks : List (Kind × Bool) := [(.static, false), (.covered, bad)]
